@@ -525,9 +525,9 @@ pub fn case(bytes: &[u8], o: &Opts) -> Case {
     Case { schema_doc, schema, sdl, op_doc, op_text, var_defs, variables, features }
 }
 
-/// The rest of the odd stream is not exposed; worlds draw from their own bytes (see props).
+/// Split a case's choice bytes: the first two thirds drive schema and operation (`case`), the last
+/// third is for the property (resolver world, schedules, response-builder configuration).
 pub fn split_world_bytes(bytes: &[u8]) -> (Vec<u8>, Vec<u8>) {
-    // first two thirds: schema/operation; last third: world
     let cut = bytes.len() - bytes.len() / 3;
     (bytes[..cut].to_vec(), bytes[cut..].to_vec())
 }
